@@ -48,8 +48,8 @@ type poolObs struct {
 	windowMax int
 	observed  int
 	maxCnt    int
-	// size visible (truth or lister) at the start of every allocating call that is in flight, or that returned
-	// since the previous observation: a call may legitimately allocate up to the size it saw
+	// largest size visible (truth or lister) at the start of, or set during, every allocating call that is in flight or
+	// that returned since the previous observation: a call may legitimately allocate up to a size it can have seen
 	active   map[int64]int
 	finished []int
 	nextID   int64
@@ -117,6 +117,13 @@ func (po *poolObs) raise(sz int) {
 	if sz > po.windowMax {
 		po.windowMax = sz
 	}
+	// a call in flight reads the size at some point of its execution, not at its start: every size set while it runs
+	// is a size it may legitimately have seen
+	for id, v := range po.active {
+		if sz > v {
+			po.active[id] = sz
+		}
+	}
 	po.mu.Unlock()
 }
 
@@ -142,6 +149,9 @@ func roundC07(seed int64, idx int) *Round {
 		po.mu.Unlock()
 		return func() {
 			po.mu.Lock()
+			if v, ok := po.active[id]; ok && v > vis {
+				vis = v
+			}
 			delete(po.active, id)
 			po.finished = append(po.finished, vis)
 			po.mu.Unlock()
